@@ -12,9 +12,10 @@ CLAIMED = {
                 "variables (feasibility, KKT certificate, brute-force optimality over forests, termination), simulation on 5; "
                 "the real solver is bound to it by trace validation: every lattice instance and seeded random instances are "
                 "solved by labella.vpsc and TLC re-solves each with the model and compares positions, flags and cost.",
-        "note": "Exact optimality only inside the 32-bit envelope of the model (<= 8 variables, weights 1..3, scales 1..2); "
-                "larger instances (to 60 variables, weights 1e-2..1e10) get termination, feasibility and cost consistency. "
-                "Trusted: TLC, the JSON projection float -> scaled integer in harness/drivers/d_vpsc.py.",
+        "note": "Exact optimality inside the 32-bit envelope of the model (<= 8 variables, weights 1..3, scales 1..2); beyond it (to 60 variables, "
+                "weights 1e-2..1e10) termination, feasibility, cost consistency and optimality by certificate (a cheaper exactly-feasible point "
+                "proposed by the harness and verified by TLC in BigNat = violation). The solver's internal steps are wrapped at run time and "
+                "validated against the model's actions (VpscSteps.tla; drift only). Trusted: TLC, the float -> integer projection.",
         "technique": "TLA+ operational model + TLC exhaustive/simulation; trace validation of real solver runs against the model's certified optimum",
         "design_ref": "DESIGN.md section 8 (C05)",
     },
@@ -52,7 +53,9 @@ CLAIMED.update({
     "C04": {
         "text": "Structural predicates (conservation, contiguity, one stub per nearer layer, parent/child linkage, stub payload, reported layering, "
                 "single-layer rule, capacity) are evaluated by TLC on every Force.compute() record (objects walked through public attributes).",
-        "note": "The greedy choice of which label is punted is not constrained by the property and not compared (no operational distributor model yet).",
+        "note": "The operational layering model spec/Distributor.tla is model-checked (conservation, capacity, single-layer rule) and every fresh lattice "
+                "layering observed from the code is compared with it (drift is reported, the verdict comes from the structural predicates); "
+                "records include re-layouts on a reused engine and budgets hit exactly.",
         "technique": "trace validation of Force.compute() records against TLA+ structural predicates (TLC)",
         "design_ref": "DESIGN.md section 8 (C04)",
     },
@@ -110,7 +113,8 @@ CLAIMED.update({
         "text": "Declarative tick predicates (defined, strictly increasing, in domain, calendar-boundary class implied by the spacing, gap ratio <= 2, "
                 "count bounds) are evaluated by TLC with spec/Calendar.tla on TimeScale.ticks() results for a curated lattice of start instants x "
                 "span ladder (1 ms..250 y) x counts and for seeded random domains biased to month ends.",
-        "note": "The operational tick-method model (bisect + geometric mean) is not yet part of the specification; verdicts come from the declarative predicates.",
+        "note": "The operational tick model spec/TimeTicks.tla (bisect in BigNat, geometric-mean choice, calendar range) is model-checked for the same "
+                "predicates and every observed tick list must be one it admits (drift reported; verdicts come from the declarative predicates).",
         "technique": "trace validation of ticks() records against TLA+ calendar predicates (TLC); calendar model checked by TLC",
         "design_ref": "DESIGN.md section 8 (C16)",
     },
